@@ -168,6 +168,7 @@ type vRig struct {
 	outf   *os.File
 
 	mainG     int64
+	phG       int64 // goroutine of the scheduler: its tokens.get()/ret() calls are phantom sessions
 	handlerG  map[int64]int // goroutine id -> session
 	lastOnDC  int
 	cur       int            // sessions started = number of tok.get events
@@ -243,7 +244,7 @@ func (r *vRig) hook(point string, args ...interface{}) {
 		}
 		e["count"] = args[0]
 		e["len"] = args[1]
-		if point == "tok.get" {
+		if point == "tok.get" && gid == r.mainG {
 			r.cur++
 		}
 	case "rs.exit":
@@ -272,6 +273,8 @@ func (r *vRig) hook(point string, args ...interface{}) {
 	if gid == r.mainG {
 		e["g"] = "main"
 		e["s"] = r.cur
+	} else if gid == r.phG && r.phG != 0 {
+		e["g"] = "ph"
 	} else if s, ok := r.handlerG[gid]; ok {
 		e["g"] = "h"
 		e["s"] = s
